@@ -52,9 +52,9 @@ def moved(at, d, new_phi=None):
     return t
 
 
-def motion_bounds(at0, at1, shift0=0j, shift1=0j):
+def motion_bounds(at0, at1, shift0=0j, shift1=0j, margin=0.9):
     """the quantities of C12's pre-condition, evaluated on the interface end points of both frames.
-    returns dict(move, half_spacing, extent, box_change) and ok (strictly inside with factor 0.9)"""
+    returns dict(move, half_spacing, extent, box_change) and ok (strictly inside with factor `margin`)"""
     e0, e1 = end_points(at0), end_points(at1)
     common = [j for j in e0 if j in at1.J]
     z0 = np.array([at0.J[j] + shift0 for j in e0])
@@ -73,7 +73,7 @@ def motion_bounds(at0, at1, shift0=0j, shift1=0j):
     box = np.hypot((z1.real.max() - z1.real.min()) - (z0.real.max() - z0.real.min()),
                    (z1.imag.max() - z1.imag.min()) - (z0.imag.max() - z0.imag.min()))
     q = {"move": float(move), "half_spacing": float(0.5 * spacing), "extent": float(extent), "box_change": float(box)}
-    ok = move < 0.9 * 0.5 * spacing and move < 0.9 * 0.08 * extent and box < 0.9 * 0.10 * extent
+    ok = move < margin * 0.5 * spacing and move < margin * 0.08 * extent and box < margin * 0.10 * extent
     return q, bool(ok)
 
 
@@ -100,3 +100,25 @@ def resultants(at, T):
         F[a] += t * at.tangent(k, a)
         F[b] += t * at.tangent(k, b)
     return F
+
+
+def slip_field(rng, at, frac, normal=None, through=None):
+    """two rigid parts sliding past each other, both moving by frac x (the C12 bound): the part on the positive side of the
+    line moves straight towards the line, the other one away from it at 45 degrees.  Seen from a junction next to the line
+    its own successor (distance m) and the successor of its neighbour across the line (distance spacing - m) are nearly
+    equally far: a near-tie for the nearest-neighbour search in every orientation, and a tie-break that depends on the
+    metric when the line is parallel to a coordinate axis."""
+    e = end_points(at)
+    z = np.array([at.J[j] for j in e])
+    d = np.abs(z[:, None] - z[None, :])
+    d[np.diag_indices(len(z))] = np.inf
+    ext = max(z.real.max() - z.real.min(), z.imag.max() - z.imag.min())
+    m = frac * min(0.5 * d.min(), 0.08 * ext)
+    n = normal if normal is not None else np.exp(1j * rng.uniform(0, 2 * np.pi))
+    p0 = through if through is not None else at.centroid()
+    sg = 1 if rng.random() < 0.5 else -1
+    if rng.random() < 0.5:
+        n = -n
+    a = -m * n
+    b = -m * n * np.exp(1j * sg * np.pi / 4)
+    return {j: (a if ((zz - p0) * np.conj(n)).real > 0 else b) for j, zz in at.J.items()}
